@@ -52,6 +52,14 @@ var (
 	c01srv5 = &type5.BatchedPrivateTokenRequest{}
 )
 
+func scribbleAll(bs ...[]byte) {
+	for _, b := range bs {
+		for i := range b {
+			b[i] ^= 0xc3
+		}
+	}
+}
+
 func init() {
 	props["C01"] = runC01
 	props["C02"] = runC02
@@ -73,6 +81,7 @@ func init() {
 		if err != nil {
 			return "err-create"
 		}
+		scribbleAll(challenge, nonce, blind) // the caller reuses its argument buffers once the request exists
 		wire := st.Request().Marshal()
 		// the issuer decodes into one long-lived request value, as a server reusing its buffers would
 		rq := c01srv1
@@ -109,6 +118,7 @@ func init() {
 		if err != nil {
 			return "err-create"
 		}
+		scribbleAll(challenge, nonce)
 		wire := st.Request().Marshal()
 		rq := c01srv2
 		if !rq.Unmarshal(wire) {
@@ -142,6 +152,11 @@ func init() {
 		}
 		if err != nil {
 			return "err-create"
+		}
+		scribbleAll(challenge)
+		scribbleAll(nonces...)
+		for i := range nonces {
+			nonces[i] = nil
 		}
 		wire := st.Request().Marshal()
 		rq := c01srv5
@@ -182,6 +197,7 @@ func init() {
 		if err != nil {
 			return "err-create"
 		}
+		scribbleAll(challenge, nonce)
 		wire := st.Request().Marshal()
 		sent := append([]byte{}, wire...)
 		resp, _, err := e.issuer.Evaluate(wire)
